@@ -90,20 +90,77 @@ def r1_formula_skeleton(ctx, rule):
                 '[end-n:end] for end = n .. len', facts, sf)
     else:
         ctx.ok(rule, SCP, 'level = LN(len) + IP(s[0:n-1]) + sum CP(s[e-n:e]) for e = n..len; KeyError -> -1', facts)
-    # MINLEN resolves to ngram
+    min_length_resolution(ctx, rule)
+
+
+def _mini_eval(node, env):
+    if isinstance(node, ast.Constant) and isinstance(node.value, int):
+        return node.value
+    t = U(node)
+    if t in env:
+        return env[t]
+    if isinstance(node, ast.Call) and call_name(node) in ('max', 'min') and not node.keywords:
+        vs = [_mini_eval(a, env) for a in node.args]
+        if None in vs or not vs:
+            return None
+        return max(vs) if call_name(node) == 'max' else min(vs)
+    if isinstance(node, ast.Compare) and len(node.ops) == 1:
+        a, b = _mini_eval(node.left, env), _mini_eval(node.comparators[0], env)
+        if a is None or b is None:
+            return None
+        op = node.ops[0]
+        return {ast.Lt: a < b, ast.LtE: a <= b, ast.Gt: a > b, ast.GtE: a >= b, ast.Eq: a == b, ast.NotEq: a != b}.get(type(op))
+    if isinstance(node, ast.IfExp):
+        c = _mini_eval(node.test, env)
+        if c is None:
+            return None
+        return _mini_eval(node.body if c else node.orelse, env)
+    return None
+
+
+def _mini_run(body, env):
+    """Interpret the assignments/ifs that mention the tracked names; False if something cannot be interpreted."""
+    for st in body:
+        if isinstance(st, ast.Assign) and len(st.targets) == 1 and U(st.targets[0]) in ('self.min_length', 'min_length'):
+            v = _mini_eval(st.value, env)
+            if v is None:
+                return False
+            env[U(st.targets[0])] = v
+        elif isinstance(st, ast.If) and 'min_length' in U(st.test):
+            c = _mini_eval(st.test, env)
+            if c is None or not _mini_run(st.body if c else st.orelse, env):
+                return False
+        elif isinstance(st, (ast.For, ast.While, ast.Try, ast.With)) and 'min_length' in U(st):
+            return False
+    return True
+
+
+def min_length_resolution(ctx, rule):
+    """AlphabetLookup accepts exactly the lengths >= ngram: its min_length resolves to max(min_length, ngram) in each of
+    the three orderings of the two numbers (interpreted abstractly on one representative per ordering), the default is 1
+    and run_trainer does not override it."""
     iq = ALP + '__init__'
     ifn = ctx.fn(iq)
-    txt = U(ifn)
     d = param_default(ifn, 'min_length')
     cons = [c for q, f in ctx.repo.all_funcs() for c in calls_in(f) if call_name(c) == 'AlphabetLookup'
             and not q.startswith('lib_trainer/unit_tests')]
     passes_min = any(arg_for(c, ifn, 'min_length') is not None for c in cons)
-    clamp = any(isinstance(n, ast.If) and U(n.test) == 'self.min_length < ngram' and [U(x) for x in n.body] == ['self.min_length = ngram']
-                for n in walk_local(ifn))
-    if clamp and const(d) == 1 and not passes_min:
-        ctx.ok(rule, iq, 'min_length = max(1, ngram) = ngram at the only construction site')
+    table = {}
+    good = True
+    for name, (m, g) in (('min_length < ngram', (1, 4)), ('min_length == ngram', (4, 4)), ('min_length > ngram', (6, 4))):
+        env = {'min_length': m, 'ngram': g}
+        okrun = _mini_run(ifn.body, env)
+        table[name] = env.get('self.min_length') if okrun else None
+        if not okrun or env.get('self.min_length') != max(m, g):
+            good = False
+    facts = {'resolution (min_length, ngram) = (1,4) (4,4) (6,4)': table, 'default': U(d) if d is not None else None,
+             'construction sites': len(cons)}
+    if good and const(d) == 1 and not passes_min and cons:
+        ctx.ok(rule, iq, 'min_length = max(min_length, ngram) in all three orderings; default 1, not overridden: = ngram', facts)
     else:
-        ctx.bad(rule, iq, 'min_length resolution', 'the trainer must accept exactly the lengths >= ngram', None, ifn)
+        ctx.bad(rule, iq, 'min_length resolution', 'the trainer must accept exactly the lengths >= ngram: a password shorter than '
+                'ngram has no n-gram window, the guesser can never emit it, yet it would be given a level and counted in the '
+                'per-level statistics', facts, ifn)
 
 
 def r2_ln_offset(ctx, rule):
@@ -216,12 +273,83 @@ _OMEN_READERS = ('lib_guesser/omen/input_file_io.py::_load_ngrams', 'lib_guesser
                  'lib_scorer/omen_scorer.py::OmenScorer._load_omen')
 
 
+OMEN_LOADERS = ('lib_scorer/omen_scorer.py::OmenScorer._load_omen', 'lib_guesser/omen/input_file_io.py::_load_ngrams')
+
+
+def _is_table_store(st):
+    """x[...] = v / x[...].append(v) / x.append(v) where x is rooted at self.<attr> or grammar."""
+    def rooted(n):
+        while isinstance(n, (ast.Subscript, ast.Attribute)):
+            if isinstance(n, ast.Attribute) and isinstance(n.value, ast.Name) and n.value.id == 'self':
+                return n.attr in ('ip', 'cp', 'ep', 'ln')
+            n = n.value
+        return isinstance(n, ast.Name) and n.id == 'grammar'
+    if isinstance(st, ast.Assign) and isinstance(st.targets[0], ast.Subscript) and rooted(st.targets[0]):
+        return True
+    if isinstance(st, ast.Expr) and isinstance(st.value, ast.Call) and isinstance(st.value.func, ast.Attribute) \
+            and st.value.func.attr in ('append', 'add') and rooted(st.value.func.value):
+        return True
+    return False
+
+
+def r10_omen_loaders_complete(ctx, rule):
+    """The scorer's and the guesser's IP/CP/LN loaders keep every record of the level files: inside the line loop a
+    table store is conditional only on the table being dispatched on (name == 'ip') or on a nested dict needing
+    initialisation; nothing is skipped by its level or n-gram (seed C11-f pruned entries above the scorer's cut-off, so a
+    string containing one scored -1 while trainer and guesser give its real level)."""
+    n_loops = n_stores = 0
+    bad = False
+    for q in OMEN_LOADERS:
+        fn = ctx.fn(q)
+        mod = ctx.repo.modules[q.partition('::')[0]]
+        ctx.stats['functions'].add(q)
+        for lp in [n for n in walk_local(fn) if isinstance(n, ast.For) and isinstance(n.iter, ast.Name) and n.iter.id == 'file']:
+            n_loops += 1
+            for st in walk_stmts(lp.body):
+                if isinstance(st, (ast.Continue, ast.Break)):
+                    bad = True
+                    ctx.bad(rule, q, 'OMEN loader leaves the line loop: ' + U(st), 'every record of a level file belongs to '
+                            'the model; a skipped record changes the level of every string that contains the n-gram', None, st)
+                if not _is_table_store(st):
+                    continue
+                n_stores += 1
+                for t, pol in path_conditions(mod, st, stop=lp):
+                    txt = U(t)
+                    ok = False
+                    if isinstance(t, ast.Compare) and len(t.ops) == 1:
+                        if isinstance(t.ops[0], ast.Eq) and U(t.left) == 'name' and isinstance(const(t.comparators[0]), str):
+                            ok = True
+                        if isinstance(t.ops[0], ast.NotIn) and pol:
+                            ok = True       # first sighting of a key: nested container initialised
+                    owner = mod.parents.get(id(t))
+                    if isinstance(owner, ast.If) and owner.test is t and not pol and owner.body and \
+                            isinstance(owner.body[-1], ast.Raise):
+                        ok = True           # sanity check that aborts the whole load
+                    if not ok:
+                        bad = True
+                        ctx.bad(rule, q, 'record stored only if %s%s' % ('' if pol else 'not ', txt),
+                                'the three parties compute a level from the same tables only if each loader keeps every record '
+                                'of IP.level / CP.level / LN.level; a record dropped by its level makes the string unscorable '
+                                '(-1) here while the trainer and the other reader still give its level', None, st)
+    if ctx.floor(rule, OMEN_LOADERS[0], n_loops, 4, 'line loops in the OMEN loaders') and \
+            ctx.floor(rule, OMEN_LOADERS[0], n_stores, 6, 'table stores in the OMEN loaders') and not bad:
+        ctx.ok(rule, OMEN_LOADERS[0], 'all %d table stores in %d loader loops are unconditional up to dispatch/initialisation'
+               % (n_stores, n_loops))
+
+
+def _passes(ctx, rule):
+    # the third pass must level the very passwords the first pass trained the model on (seed C11-e)
+    from . import c19
+    return c19.r1_three_passes(ctx, rule)
+
+
 def rules(tier):
     return [('C11.R1', r1_formula_skeleton), ('C11.R2', r2_ln_offset), ('C11.R3', r3_cp_count), ('C11.R5', r5_length_domain),
             ('C11.R6', lambda c, r: c07.r5_strip_discipline(c, r, only=_OMEN_READERS, floor=4)),
             ('C11.R7', lambda c, r: c07.r3_record_layout(c, r, scope='omen')),
             ('C11.R8', lambda c, r: c07.r2_encoding_agreement(c, r, file_filter=lambda fid: fid[0] == 'Omen' and fid[-1] in
-                                                               ('IP.level', 'CP.level', 'LN.level', 'alphabet.txt'), floor=6))]
+                                                               ('IP.level', 'CP.level', 'LN.level', 'alphabet.txt'), floor=6)),
+            ('C11.R9', _passes), ('C11.R10', r10_omen_loaders_complete)]
 
 
 META = {
